@@ -819,7 +819,8 @@ class SqliteGitShaMap(GitShaMap):
         """
         for table in ("blobs", "commits", "trees"):
             for (sha,) in self.db.execute(f"select sha1 from {table}"):  # noqa: S608
-                yield sha.encode("ascii")
+                # sha1s are stored as bytes; very old databases hold text
+                yield sha if isinstance(sha, bytes) else sha.encode("ascii")
 
 
 class TdbCacheUpdater(CacheUpdater):
